@@ -1506,13 +1506,31 @@ class ArrowSerializableDataclass:
                 )
             return inner_type(**nested_kwargs)
 
-        # Handle frozenset reconstruction
+        # Handle frozenset reconstruction (elements converted back like list elements:
+        # serialization recurses into them, so an Enum arrives as its name and a
+        # nested dataclass as a struct dict)
         if get_origin(inner_type) is frozenset and isinstance(value, list):
+            set_args = get_args(inner_type)
+            if set_args:
+                set_element_type = set_args[0]
+                return frozenset(
+                    cls._convert_value_for_deserialization(v, set_element_type, ipc_validation) for v in value
+                )
             return frozenset(value)
 
-        # Handle dict reconstruction from list of tuples
+        # Handle dict reconstruction from list of tuples (keys and values converted back)
         if get_origin(inner_type) is dict and isinstance(value, list):
-            return dict(cast("list[tuple[object, object]]", value))
+            pairs = cast("list[tuple[object, object]]", value)
+            dict_args = get_args(inner_type)
+            if len(dict_args) >= 2:
+                key_type, value_type = dict_args[0], dict_args[1]
+                return {
+                    cls._convert_value_for_deserialization(
+                        k, key_type, ipc_validation
+                    ): cls._convert_value_for_deserialization(v, value_type, ipc_validation)
+                    for k, v in pairs
+                }
+            return dict(pairs)
 
         # Handle list with element type conversion
         origin = get_origin(inner_type)
